@@ -328,6 +328,85 @@ def _mutation_events(tid0):
     return ev
 
 
+def _numeric_close(a, b, rtol=1e-9):
+    """recursive closeness of returned values (arrays, tuples, dicts, scalars); timing fields ignored"""
+    if isinstance(a, dict) and isinstance(b, dict):
+        ks = [k for k in a if not any(t in str(k) for t in ("time",))]
+        return all(k in b and _numeric_close(a[k], b[k], rtol) for k in ks)
+    if isinstance(a, (list, tuple)) and isinstance(b, (list, tuple)):
+        return len(a) == len(b) and all(_numeric_close(x, y, rtol) for x, y in zip(a, b))
+    if hasattr(a, "toarray"):
+        a, b = a.toarray(), b.toarray()
+    if hasattr(a, "real") and hasattr(a, "i") and hasattr(a, "k") and not isinstance(a, np.ndarray) and hasattr(a, "shape"):
+        return all(_numeric_close(getattr(a, p).toarray(), getattr(b, p).toarray(), rtol) for p in ("real", "i", "j", "k"))
+    if isinstance(a, np.ndarray) or isinstance(b, np.ndarray):
+        a, b = np.asarray(a), np.asarray(b)
+        if a.dtype == np.quaternion:
+            a = quaternion.as_float_array(a)
+        if b.dtype == np.quaternion:
+            b = quaternion.as_float_array(b)
+        if a.shape != b.shape:
+            return False
+        if a.size == 0:
+            return True
+        sc = max(float(np.max(np.abs(a))), float(np.max(np.abs(b))), 1e-300)
+        return bool(np.max(np.abs(a.astype(complex) - b.astype(complex))) <= rtol * sc)
+    if isinstance(a, (int, float, complex, np.number)) and isinstance(b, (int, float, complex, np.number)):
+        return bool(abs(complex(a) - complex(b)) <= rtol * max(abs(complex(a)), abs(complex(b)), 1e-300))
+    return type(a) is type(b)
+
+
+def _relayout(a, how):
+    """same values, different memory layout"""
+    if how == "F":
+        return np.asfortranarray(a)
+    big = np.zeros(tuple(2 * d for d in a.shape), dtype=a.dtype)      # strided view into a larger buffer
+    sl = tuple(slice(None, None, 2) for _ in a.shape)
+    big[sl] = a
+    return big[sl]
+
+
+DIRECT = ("quat_matmat", "quat_hermitian", "quat_frobenius_norm", "matrix_norm(2)", "real_expand", "quaternion_to_complex_adjoint",
+          "rank", "det(Dieudonne)", "ishermitian", "classical_qsvd_full", "classical_qsvd", "qr_qua", "quaternion_lu(2)", "quaternion_lu(3)",
+          "hessenbergize", "tridiagonalize", "tensor_unfold", "tensor_fold", "quat_null_space")
+
+
+def _layout_events(tid0):
+    """the value returned depends on the VALUES of the arguments, not on their memory layout"""
+    tab, floats, comp, sp = mutation_table()
+    ev = []
+    tid = tid0
+    for name, f, args in tab:
+        if name not in DIRECT:
+            continue
+        qa = [q_from_float(a) if a.ndim == 3 else quaternion.as_quat_array(a.copy()) for a in args]
+        with contextlib.redirect_stdout(io.StringIO()):
+            ref = f(*[x.copy() for x in qa])
+        for how in ("F", "strided"):
+            tid += 1
+            alt = [_relayout(x, how) for x in qa]
+            try:
+                with contextlib.redirect_stdout(io.StringIO()):
+                    got = f(*alt)
+                same = _numeric_close(ref, got)
+            except Exception as e:
+                same = False
+            ev.append({"tid": tid, "ev": "Layout", "fn": name, "layout": how, "same": bool(same)})
+    for name, f, args in floats:
+        with contextlib.redirect_stdout(io.StringIO()):
+            ref = f(*[a.copy() for a in args])
+        for how in ("F", "strided"):
+            tid += 1
+            try:
+                with contextlib.redirect_stdout(io.StringIO()):
+                    got = f(*[_relayout(a, how) for a in args])
+                same = _numeric_close(ref, got)
+            except Exception:
+                same = False
+            ev.append({"tid": tid, "ev": "Layout", "fn": name, "layout": how, "same": bool(same)})
+    return ev
+
+
 def _seeded_events(tid0):
     """routines that draw random numbers are reproducible functions of the global seed"""
     L = lib()
@@ -462,6 +541,7 @@ def run(ctx, replay=None):
         events += ev
     events += _mutation_events(900000)
     events += _seeded_events(910000)
+    events += _layout_events(915000)
     sev, copies = _style_events(920000)
     events += sev
     ctx.notes["package_import_also_loads_toplevel_modules"] = copies
@@ -481,12 +561,12 @@ def run(ctx, replay=None):
         if key in seen:
             continue
         seen.add(key)
-        cls = {"Construct": "history", "Mutation": "mutation-table", "Seeded": "seeded", "Style": "import-style"}[head["ev"]]
+        cls = {"Construct": "history", "Mutation": "mutation-table", "Seeded": "seeded", "Style": "import-style", "Layout": "memory-layout"}[head["ev"]]
         ctx.fail(fn, clause, cls, {"events": es[:5]})
     for e in events:
         if e["ev"] != "Construct":
             ctx.case((e["tid"], e.get("step"), e["ev"]))
-    ctx.replays = sum(1 for e in events if e["ev"] in ("Call", "Mutation", "Seeded", "Style"))
+    ctx.replays = sum(1 for e in events if e["ev"] in ("Call", "Mutation", "Seeded", "Style", "Layout"))
     ctx.count("SameAsFreshObject", sum(1 for e in events if e["ev"] == "Call"))
     ctx.count("ArgumentsUnchanged", sum(1 for e in events if e["ev"] in ("Call", "Mutation")))
     ctx.sample({"direction": "F", "history": [e for e in events if e["ev"] in ("Construct", "Call")][:4]})
